@@ -961,6 +961,28 @@ class Interp:
             return VCoro(thunk)
         return self.call_func_now(fv, args, kwargs)
 
+    @staticmethod
+    def return_ite(node):
+        """the body `[docstring] if c: return a [else:] return b` as the expression `a if c else b` (None if the body has another shape)"""
+        cached = getattr(node, "_pyvc_ite", False)
+        if cached is not False:
+            return cached
+        body = [s_ for s_ in node.body if not (isinstance(s_, ast.Expr) and isinstance(s_.value, ast.Constant))]
+        out = None
+        if body and isinstance(body[0], ast.If) and len(body[0].body) == 1 and isinstance(body[0].body[0], ast.Return) and body[0].body[0].value is not None \
+                and not isinstance(node, ast.AsyncFunctionDef):
+            a = body[0].body[0].value
+            b = None
+            if len(body) == 2 and not body[0].orelse and isinstance(body[1], ast.Return) and body[1].value is not None:
+                b = body[1].value
+            elif len(body) == 1 and len(body[0].orelse) == 1 and isinstance(body[0].orelse[0], ast.Return) and body[0].orelse[0].value is not None:
+                b = body[0].orelse[0].value
+            if b is not None:
+                out = ast.copy_location(ast.IfExp(test=body[0].test, body=a, orelse=b), body[0])
+                ast.fix_missing_locations(out)
+        node._pyvc_ite = out
+        return out
+
     def call_func_now(self, fv, args, kwargs):
         node = fv.node
         if self.contracts is not None and fv.qualname and not isinstance(node, ast.Lambda):
@@ -976,6 +998,9 @@ class Interp:
         fr = Frame(fv.module, locals=loc, parent=fv.closure, cls=fv.cls, func=fv.qualname)
         if isinstance(node, ast.Lambda):
             return self.ev(node.body, fr)
+        ite = self.return_ite(node)
+        if ite is not None:
+            return self.ev(ite, fr)       # `if c: return a` / `return b` is the conditional expression (merged when pure, forked otherwise)
         self.inline_depth += 1
         if self.inline_depth > 40:
             raise Unsupported("inline depth exceeded (recursion?)")
